@@ -87,6 +87,17 @@ def compositeFast (fmt mis : Nat) (b : Bits) (m : Transform) (srcX srcY : Int) (
           (let o := rotate270Origin t srcX srcY width
            decide (0 ≤ o.1 ∧ o.1 + height ≤ b.width ∧ 0 ≤ o.2 ∧ o.2 + width ≤ b.height)) then
         (some (bltRotated270 b (rotate270Origin t srcX srcY width).1 (rotate270Origin t srcX srcY width).2 16 mis width height), "rotate-270")
+      else if b.filter = .bilinear ∧ scale ∧ smallStep ∧ fmt = 0 ∧ width % 2 = 0 ∧ coversAll b p t.m00 t.m11 width height 32768 1 then
+        (fastBilinearScaled .cover b t srcX srcY width height, "scaled-bilinear-cover")
+      else if b.filter = .bilinear ∧ scale ∧ smallStep ∧ fmt = 0 ∧ 0 < t.m00 ∧ b.rep = .none ∧
+          ¬ coversAll b p t.m00 t.m11 width height 32768 1 then
+        (fastBilinearScaled .none b t srcX srcY width height, "scaled-bilinear-none")
+      else if b.filter = .bilinear ∧ scale ∧ smallStep ∧ fmt = 0 ∧ 0 < t.m00 ∧ b.rep = .pad ∧
+          ¬ coversAll b p t.m00 t.m11 width height 32768 1 then
+        (fastBilinearScaled .pad b t srcX srcY width height, "scaled-bilinear-pad")
+      else if b.filter = .bilinear ∧ scale ∧ smallStep ∧ fmt = 0 ∧ 0 < t.m00 ∧ b.rep = .normal ∧
+          ¬ coversAll b p t.m00 t.m11 width height 32768 1 then
+        (fastBilinearScaled .normal b t srcX srcY width height, "scaled-bilinear-normal")
       else if b.filter = .bilinear ∧ scale ∧ smallStep ∧ fmt = 0 ∧ coversAll b p t.m00 t.m11 width height 32768 1 then
         (fastBilinearCoverCached b t srcX srcY width height, "bilinear-cover-iter")
       else
